@@ -369,7 +369,7 @@ def declaredDrawCalls : List (String × List String) := [
   ("input_output_control_by_identifier", ["random_bool", "random_bool", "random_payload"]),
   ("clear_diagnostic_information", ["random_bool"]),
   ("read_dtc_information", ["randint", "expovariate", "randint", "randint"])]
-/-- the seeding code itself -/
+/-- the seeding code itself, and what the dispatcher / `update_state` / the state object read -/
 def declaredTexts : List (String × String) := [
   ("stateful_rng", "def stateful_rng(self, *args: Any) -> RNG: return RNG(str(self.seed) + '|' + str(self.state.session) + '|'.join((str(arg) for arg in args)))"),
   ("RNG.__init__", "def __init__(self, *args: Any): super().__init__() self.seeds: list[Any] = [] self.set_seeds(*args)"),
@@ -377,6 +377,12 @@ def declaredTexts : List (String × String) := [
   ("RNG.add_seeds", "def add_seeds(self, *args: Any) -> None: self.set_seeds(*self.seeds, *args)"),
   ("RNG.random_bool", "def random_bool(self, p_true: float) -> bool: return self.random() <= p_true"),
   ("RNG.random_payload", "def random_payload(self, min_len: int=0, max_len: int | None=None) -> bytes: byte_length = max(min_len, int(self.expovariate(1 / 8) + 0.5)) if max_len is not None: byte_length = min(max_len, byte_length) return bytes((self.randint(0, 255) for _ in range(byte_length)))"),
+  ("free:RandomUDSServer.respond_after_default", "UDSIsoServices,isinstance,self.clear_diagnostic_information,self.ecu_reset,self.input_output_control_by_identifier,self.read_data_by_identifier,self.read_dtc_information,self.routine_control,self.security_access,self.write_data_by_identifier,service"),
+  ("free:RandomUDSServer.update_state", "isinstance,self.state,service,super"),
+  ("free:UDSServer.update_state", "isinstance,self.state,service"),
+  ("free:RNGEcuState.__init__", "self.last_sa_response,service,super"),
+  ("free:RNGEcuState.reset", "self.last_sa_response,super"),
+  ("RNGEcuState.members", "__init__,reset"),
   ("RNG.bases", "random.Random"),
   ("RNG.members", "__init__,add_seeds,random_bool,random_payload,set_seeds")]
 def declaredSids : List Nat :=
